@@ -81,3 +81,9 @@ fn c17_instance_setters_single_write() {
     want.default_ds.slave_only = so;
     assert!(now == want);
 }
+
+// helpers for the instance-level BMCA composition harness (port::verif_kani::bmca_h)
+pub(crate) fn any_instance_with_log(path_k: usize, log: i8) -> PtpInstance<RecFilter, ChkLock> {
+    PtpInstance { state: ChkLock::new(any_instance_state(path_k)), log_bmca_interval: AtomicI8::new(log), _filter: PhantomData }
+}
+pub(crate) fn state_of(inst: &PtpInstance<RecFilter, ChkLock>) -> &ChkLock { &inst.state }
